@@ -94,9 +94,34 @@ def build_family(g):
     return Y.astype(np.int64), X.astype(np.int64)
 
 
+@st.composite
+def wide_pair(draw, n_lo=65600, n_hi=72000):
+    """More than 2^16 distinct codes on the feature side against a target with few strata: the regime where index /
+    position buffers narrower than 32 bits wrap. Cost ~ #classes * n, so the target keeps 2-4 strata."""
+    n = draw(st.integers(n_lo, n_hi))
+    return {'wide': {'n': n, 'kx': draw(st.integers(2, 4)), 'k': draw(st.integers(0, 2**32 - 1)),
+                     'dup': draw(st.sampled_from([0, 0, 100, 2000])), 'sparse': draw(st.booleans())}}
+
+
+def build_wide(w):
+    rng = np.random.Generator(np.random.PCG64(int(w['k'])))
+    n = int(w['n'])
+    Y = rng.permutation(n)
+    if w['dup']:
+        idx = rng.integers(0, n, size=int(w['dup']))
+        Y[idx] = Y[(idx + 1) % n]          # a few repeated codes; still > 2^16 distinct
+    if w['sparse']:
+        lut = np.sort(rng.choice(MAX_CODE, size=n, replace=False))
+        Y = lut[Y]
+    X = rng.integers(0, int(w['kx']), size=n)
+    return Y.astype(np.int64), X.astype(np.int64)
+
+
 def materialize_pair(case):
     """-> (Y, X) as int64 arrays of non-negative codes (< 2**20)."""
-    if 'gen' in case:
+    if 'wide' in case:
+        Y, X = build_wide(case['wide'])
+    elif 'gen' in case:
         Y, X = build_family(case['gen'])
     else:
         Y, X = np.asarray(case['Y'], dtype=np.int64), np.asarray(case['X'], dtype=np.int64)
